@@ -4,7 +4,11 @@ import json, shutil, sys
 from pathlib import Path
 pid, X = sys.argv[1], sys.argv[2]
 wt = Path(f"/tmp/wt/{pid}")
-dst = Path(f"/verif/seeded/{pid}{X}")
+if pid.endswith("r2"):           # second round: worktree C02r2, change A -> /verif/seeded/C02C, B -> C02D
+    pid = pid[:-2]
+    dst = Path(f"/verif/seeded/{pid}{ {'A': 'C', 'B': 'D'}[X] }")
+else:
+    dst = Path(f"/verif/seeded/{pid}{X}")
 dst.mkdir(parents=True, exist_ok=True)
 shutil.copy(wt / f"mut{X}.diff", dst / "patch.diff")
 shutil.copy(wt / f"demo{X}.py", dst / "demo.py")
